@@ -252,8 +252,15 @@ def run_affine(spec):
     runit = float(1 << (spec.get("ub", 0) + spec.get("mb", 0)))
     v = (np.array(spec["v"], dtype=np.float64).reshape(-1, 3) / unit).astype(spec.get("vdtype", "float32"))
     t = _triangle_array(spec)
+    # the arrays as a caller may hold them: read-only (what the package's own mesh
+    # reader returns), and / or already passed through the function once before
+    if spec.get("readonly"):
+        v.setflags(write=False)
+        t.setflags(write=False)
     try:
         with silenced():
+            if spec.get("twice"):
+                m.affine_transform_mesh(v, t, _matrix(spec))
             v2, t2 = m.affine_transform_mesh(v, t, _matrix(spec))
         vi, exact = ints_exact(v2, runit) if sc == 0 else ints_scaled(v2, runit, sc)
         t2 = np.asarray(t2)
